@@ -13,6 +13,7 @@ func init() {
 	drivers["c16w"] = c16w
 	drivers["c18w"] = c18w
 	drivers["c08w"] = c08w
+	drivers["c13w"] = c13w
 }
 
 func seqs(alpha []wop, depth int, f func([]wop)) {
@@ -320,4 +321,41 @@ func runCtl(key, side string, op int, ctor string, buflen int, writes []wop) (ev
 	do(wop{"CWrite", "1", ""})
 	do(wop{"CFlush", "", ""})
 	return evs
+}
+
+// ---------------------------------------------------------------- C13 (send side)
+
+func c13w(c *ctx) {
+	t := &traceSink{out: vh.NewOut(c.dir, "c13w", 60000), shapes: vh.Shapes{}, meta: &vh.Meta{Property: "C13", Tier: c.tier, Seed: c.seed,
+		Rule: "send side: sequences of 3 messages, each compressed or not (MessageState.SetCompressed toggled at message boundaries), each written by every 2-call combination over 9 write operations that force 1..4 fragments on buffers of 6/10/126 bytes, both sides; distinct = (configuration, compressed pattern, per-call frame shape)"}}
+	defer t.out.Close()
+	alpha := []wop{{"Write", "1", ""}, {"Write", "a", ""}, {"Write", "a+1", ""}, {"Write", "2s+1", ""}, {"WriteThrough", "s+1", ""},
+		{"ReadFrom", "a+1", "eof"}, {"ReadFrom", "2s+1", "eof/3"}, {"FlushFragment", "", ""}, {"Write", "0", ""}}
+	cfgs := []wconfig{{"NewWriterBufferSize", 8, "server", 1, true, nil}, {"NewWriterBufferSize", 16, "client", 2, true, nil}, {"NewWriterSize", 126, "client", 1, true, nil}}
+	n := 0
+	for ci, cf := range cfgs {
+		for pattern := 0; pattern < 8; pattern++ {
+			seqs(alpha, 2, func(body []wop) {
+				n++
+				if !c.thorough && ci == 2 && n%3 != 0 {
+					return
+				}
+				var ops []wop
+				for msg := 0; msg < 3; msg++ {
+					v := "0"
+					if pattern&(1<<uint(msg)) != 0 {
+						v = "1"
+					}
+					ops = append(ops, wop{"SetExt", v, ""})
+					ops = append(ops, body...)
+					ops = append(ops, wop{"Flush", "", ""})
+				}
+				sc := wscenario{Key: fmt.Sprintf("rsvw/%d/%d/%s", ci, pattern, opsKey(body)), Ctor: cf.Ctor, N: cf.N, Side: cf.Side, Op: cf.Op, Ops: ops, Ext: true}
+				if vh.Only(sc.Key) {
+					t.add(sc, runWriter(sc))
+				}
+			})
+		}
+	}
+	t.finish(c)
 }
